@@ -203,6 +203,9 @@ var $go = (fun, args) => {
     $totalGoroutines++;
     $awakeGoroutines++;
     var $goroutine = () => {
+        /* Set once the goroutine has run to its end, by returning or through runtime.Goexit(); not while it is
+           only suspended (possibly inside a deferred call that runs because of Goexit). */
+        var finished = false;
         try {
             $curGoroutine = $goroutine;
             var r = fun(...args);
@@ -212,13 +215,15 @@ var $go = (fun, args) => {
                 return;
             }
             $goroutine.exit = true;
+            finished = true;
         } catch (err) {
             if (!$goroutine.exit) {
                 throw err;
             }
+            finished = true;
         } finally {
             $curGoroutine = $noGoroutine;
-            if ($goroutine.exit) { /* also set by runtime.Goexit() */
+            if (finished) {
                 $totalGoroutines--;
                 $goroutine.asleep = true;
             }
